@@ -229,6 +229,24 @@ theorem sliceTo_int_ne_panic (s : Bytes) (i : Int) (h0 : 0 ≤ i) (h1 : i ≤ s.
   unfold sliceTo
   simp [h0, h1]
 
+theorem validateFrame_ne_panic (d head tail csText : Bytes) (n : Int) (hh : head.length ≥ 1) (ht : tail.length ≥ 1) :
+    validateFrame d head tail csText n ≠ .panic := by
+  unfold validateFrame
+  split
+  · simp
+  · rename_i hlen
+    split
+    · simp
+    · split
+      · simp
+      · apply Res.bind_ne_panic _ _ (byteAt_ne_panic _ _ (by omega) (by omega)); intro last _
+        split
+        · simp
+        · split
+          · simp
+          · apply Res.bind_ne_panic _ _ (sliceTo_int_ne_panic _ _ (by omega) (by omega)); intro pre _
+            split <;> simp
+
 theorem validateRaw_ne_panic (m : Msg) (d : Bytes) : validateRaw m d ≠ .panic := by
   unfold validateRaw
   apply Res.bind_ne_panic _ _ (scanKV_ne_panic _ _ _); intro bs _
@@ -239,24 +257,7 @@ theorem validateRaw_ne_panic (m : Msg) (d : Bytes) : validateRaw m d ≠ .panic 
   · split
     · simp
     · split
-      · rename_i bsB blB csB _ _ _
-        simp only
-        split
-        · simp
-        · rename_i hlen
-          split
-          · simp
-          · split
-            · simp
-            · have hl : (bsB ++ SOH :: blB ++ [SOH]).length ≥ 2 := by simp; omega
-              have ht : (csB ++ [SOH]).length ≥ 1 := by simp
-              apply Res.bind_ne_panic _ _ (byteAt_ne_panic _ _ (by omega) (by omega)); intro last _
-              split
-              · simp
-              · split
-                · simp
-                · apply Res.bind_ne_panic _ _ (sliceTo_int_ne_panic _ _ (by omega) (by omega)); intro pre _
-                  split <;> simp
+      · exact validateFrame_ne_panic _ _ _ _ _ (by simp; omega) (by simp)
       · simp
 
 theorem Msg.unmarshalItems_ne_panic (m : Msg) (d : Bytes) : m.unmarshalItems d ≠ .panic := by
